@@ -118,7 +118,7 @@ func runC13(c *Ctx) {
 			same[k] = items[n/3]
 		}
 		qs = append(qs, mixed, same, gcsItems(c, 200, 0xCB), append(gcsItems(c, 127, 0xCA), items[n-1]))
-		if n <= 1100 {
+		if n <= 1100 || n == 5473 {
 			qs = append(qs, items) // EVERY member asked individually (and all of them at once)
 		}
 		gcsCall(c, keys[2], 19, 784931, items, qs)
